@@ -1305,8 +1305,8 @@ def scalar_exit(st: State, t: torch.Tensor, real, nonzero: bool = False):
     run = st.run
     if e.op in ("const", "bconst"):
         return real
-    if st.in_format:
-        return real
+    if st.in_format or _in_repr():
+        return real  # values only flow into a string (repr / format): no constraint, no decision
     if e.sort == "B":
         return run.decide(e)
     try:
@@ -1323,6 +1323,19 @@ def scalar_exit(st: State, t: torch.Tensor, real, nonzero: bool = False):
     run.ctx.assume(E.eq(e, E.const(w)))
     run.decisions.append((E.eq(e, E.const(w)), True, explore._site() + " [concretised]"))
     return real
+
+
+def _in_repr() -> bool:
+    import sys
+
+    f = sys._getframe(2)
+    n = 0
+    while f is not None and n < 40:
+        if f.f_code.co_name in ("extra_repr", "__repr__", "__str__", "_repr_html_"):
+            return True
+        f = f.f_back
+        n += 1
+    return False
 
 
 def sym_allclose(st: State, a, b, rtol, atol, equal_nan=False):
